@@ -34,14 +34,26 @@ func stressRun(c *Ctx, seed uint64, cfg bedConfig, variant int) {
 		pr := r.Fork()
 		go func() {
 			defer wg.Done()
+			var mine []*rpcInfo
 			for {
 				select {
 				case <-stop:
 					return
 				default:
 				}
-				for i := 1 + pr.Intn(3); i > 0; i-- {
-					tb.send(p)
+				// bounded backlog: at most 2*limit+6 requests of this peer are unanswered
+				tb.mu.Lock()
+				open := 0
+				for _, ri := range mine {
+					if !(ri.served || ri.gotErr) {
+						open++
+					}
+				}
+				tb.mu.Unlock()
+				if open <= 2*cfg.MaxRPC+6 {
+					for i := 1 + pr.Intn(3); i > 0; i-- {
+						mine = append(mine, tb.send(p))
+					}
 				}
 				time.Sleep(time.Duration(pr.Intn(1500)) * time.Microsecond)
 			}
